@@ -35,7 +35,7 @@ MANIFEST = {
 }
 RULE = ('start, end in -1..10 (quick) / -1..16 (thorough), size -1..5 / '
         '-1..7, orphan 0..3 / 0..4, overlap 0..3 x 3 suppliers x lengths '
-        '{0,1,2,3,5,8,12,unbounded} (thorough: 0..12, unbounded) x 7 bodies; '
+        '{0,1,2,3,5,8,12,unbounded} (thorough: 0..12, unbounded) x 8 bodies; '
         'plus unbatched renders of bounded suppliers.  A run is non-trivial '
         'when the supplier holds more elements than the bound allows to '
         'pull (so a len()/list() would be visible).')
@@ -154,6 +154,7 @@ BODIES = {
               '<dtml-var batch-size>)</dtml-in>,' + STEP),
     # the body uses the same name again: a nested loop over the first
     # element (the "head of the list" / previous-next link idiom)
+    'item-rev0': '<dtml-var sequence-item>,' + STEP,
     'nested': ('<dtml-var sequence-item><dtml-if sequence-end><dtml-in seq '
                'size=1 start=1>(<dtml-var sequence-item>)</dtml-in>'
                '</dtml-if>,' + STEP),
@@ -182,7 +183,9 @@ def template(body):
     t = _t.get(body)
     if t is None:
         from DocumentTemplate import HTML
-        flag = {'next': ' next', 'previous': ' previous'}.get(body, '')
+        flag = {'next': ' next', 'previous': ' previous',
+                # options that are present but switched off at render time
+                'item-rev0': ' reverse_expr="prv0"'}.get(body, '')
         if body == 'unbatched':
             src = '<dtml-in seq><dtml-var sequence-item>,</dtml-in>'
         else:
@@ -207,8 +210,9 @@ def cases(tier):
             if L != INF:
                 yield {'body': 'unbatched', 'L': L, 'sup': sup}
             for body in ('item', 'full', 'next', 'previous', 'prevb', 'vars',
-                         'nested'):
-                if body in ('prevb', 'vars', 'nested') and sup == 'gen':
+                         'nested', 'item-rev0'):
+                if body in ('prevb', 'vars', 'nested', 'item-rev0') and \
+                        sup == 'gen':
                     continue        # a generator behaves as the iterator
                 for size in g['size']:
                     for orphan in g['orphan']:
@@ -231,7 +235,7 @@ def one(res, case, start, end, overlap):
     tag = '%s:%s:%s' % (sup, body, 'unbounded' if L == INF else 'bounded')
     try:
         out = template(body)(seq=seq, pstart=start, pend=end, psize=size,
-                             porphan=orphan, poverlap=overlap)
+                             porphan=orphan, poverlap=overlap, prv0=0)
     except PullBudget:
         res.violate('bounded-pulls', 'unbounded-consumer:%s%s' % (
             tag, ':len' if log.len_calls else ''),
